@@ -651,7 +651,7 @@ def template_universe(tier):
 
 _S: dict = {}
 CORE_NAMES = ["vector", "map", "first", "seq", "concat", "list", "apply", "hash-map", "hash-set"]
-STATE_NAMES = ("plain", "alias+refer", "shadow")
+STATE_NAMES = ("plain", "alias+refer", "shadow", "renamed-refer")
 
 
 def s_state():
@@ -698,6 +698,12 @@ def s_state():
         intern(A3, n)
     A3.add_alias(O2, sym.symbol("al"))
     states.append({"ns": A3, "model": {"name": A3.name, "interned": ["loc", "vector", "rname"], "refers": {}, "aliases": {"al": O2.name}, "core": CORE_NAMES}})
+    # A4: `rname` is a refer of O/x under ANOTHER name (as (refer 'o :rename '{x rname}) makes): in a template it denotes the Var O/x
+    A4 = mk("verif.c09.a4")
+    intern(A4, "loc")
+    A4.add_alias(O, sym.symbol("al"))
+    A4.add_refer(sym.symbol("rname"), O.find(sym.symbol("x")))
+    states.append({"ns": A4, "model": {"name": A4.name, "interned": ["loc"], "refers": {"rname": (O.name, "x")}, "aliases": {"al": O.name}, "core": CORE_NAMES}})
     # C: everything means something else
     for n in ("loc", "vector", "rname", "zzz", "x", "map", "first"):
         intern(C, n)
@@ -726,6 +732,21 @@ def read_template(t, state):
 
     with runtime.ns_bindings(state["ns"].name):
         return next(iter(reader.read_str(f"(fn* [u0 u1 s0 s1] `{sq.render(t)})", resolver=runtime.resolve_alias)))
+
+
+def resolved_duplicates(t, model):
+    """True if some set literal (or the keys of some map literal) in template t has two symbol members that resolve to the
+    same symbol in the namespace state `model`."""
+    if not isinstance(t, (list, tuple)) or not t:
+        return False
+    if not isinstance(t[0], str):
+        return any(resolved_duplicates(c, model) for c in t)
+    if t[0] in ("set", "map") and len(t) > 1 and isinstance(t[1], (list, tuple)):
+        members = list(t[1])[0::2] if t[0] == "map" else list(t[1])
+        syms = [sq.resolve(m[1], model) for m in members if isinstance(m, (list, tuple)) and m and m[0] == "sym"]
+        if len(syms) != len(set(syms)):
+            return True
+    return any(resolved_duplicates(c, model) for c in t[1:])
 
 
 def lookup_var(ns, name):
@@ -766,6 +787,11 @@ def check_template(res, fam, t, only=None, batch=None):
             res.outcomes.add(("read", read_exc))
             if read_exc != "SyntaxError":
                 res.fail("splice-outside-collection-accepted", dict(case0, variant=None), got=read_exc)
+            continue
+        if read_exc == "SyntaxError" and resolved_duplicates(t, model):
+            # two members of a set (or keys of a map) literal denote the same symbol in this state (`al/x` and a refer
+            # renamed to the same Var): the literal has duplicate members once resolved, which the reader rejects, rightly
+            res.outcomes.add(("read", "duplicate-after-resolution"))
             continue
         if read_exc:
             res.fail("read-error", dict(case0, variant=None), exc=read_exc)
